@@ -278,6 +278,7 @@ class Ident(torch.nn.Module):
 
 
 SEEN = {}
+LAST = {}
 
 
 def execute(fn, X, V, left, via):
@@ -295,6 +296,7 @@ def execute(fn, X, V, left, via):
 		kw["left"] = {"bool": bool, "npbool": numpy.bool_, "int": int}[lk](
 			left)
 		SEEN["left_kind_" + lk] = SEEN.get("left_kind_" + lk, 0) + 1
+		LAST["left_kind"] = lk
 	if via == "capture":
 		calls = []
 
@@ -418,6 +420,11 @@ def run_case(cls, params, rec):
 	if st == "raise":
 		if kind != "valid":
 			rec.refusal(cls, params, repr(val)[:200])
+			return
+		if fn != "sub" and LAST.get("left_kind", "bool") != "bool":
+			# only Python bools are documented values of `left`
+			rec.refusal(cls, params, "left given as %s refused: %s" % (
+				LAST["left_kind"], repr(val)[:100]))
 			return
 		d = dict(base, what="raised on a valid variant list",
 			error=repr(val)[:300], expected_after=afters[0])
